@@ -26,7 +26,7 @@ ASSUMPTIONS = [
     "without a cn column PAR bins are not generated (the two exporters use different reference copies there and the statement does not choose)",
     "rows whose r*2^log2 is within 1e-6 of k+1/2 are ignored (float tie)",
 ]
-BUDGET_S = {"quick": 200, "thorough": 1200}
+BUDGET_S = {"quick": 600, "thorough": 2400}
 
 
 def setup(run):
